@@ -13,7 +13,8 @@ Step = {t: in, i, a, b, usekw, beh, ret, name, hfail?, exc?}          beh: ret|r
      | {t: discard} | {t: force} | {t: record_data, k, v} | {t: sleep, ms} | {t: threads, workers: [[Step]]}
      | (in-steps) mutate_args: int   the wrapped function mutates its arguments in place
      | {t: mutate_last}   (in-place mutation of the value the previous call returned, how: int)
-     | {t: nested_op, inner: ret|raise}   (calls another decorated operation of the same recorder, copes with refusal)
+     | {t: nested_op, inner: ret|raise, skipped?: bool}   (calls another decorated operation of the same recorder, copes
+       with refusal; skipped: that operation's class is configured as skipped, i.e. plain code)
 """
 import copy
 import itertools
@@ -382,7 +383,8 @@ def build_class(prog, rec, W, decorated=True):
                 # second recording while one is running) and copes with the refusal
                 W.tl.inner_raises = s.get('inner') == 'raise'
                 try:
-                    W.inner_cls().execute()
+                    # (skipped: the other operation belongs to a class configured as skipped - plain code, no refusal)
+                    (W.inner_skipped_cls if s.get('skipped') else W.inner_cls)().execute()
                 except AssertionError:
                     W.journal.append(('inner-op-refused', W.world))
                 except V.Err:
@@ -527,6 +529,14 @@ def build_class(prog, rec, W, decorated=True):
     inner.__module__ = CLASSES_MODULE
     setattr(_mod, name + 'Inner', inner)
     W.inner_cls = inner
+    inner_skipped = type(name + 'InnerSkipped', (object,), {
+        'execute': R.operation()(inner_run) if decorated else inner_run})
+    inner_skipped.__module__ = CLASSES_MODULE
+    setattr(_mod, name + 'InnerSkipped', inner_skipped)
+    if decorated:
+        from playback.tape_recorder import RecordingParameters as _RP
+        R.recording_params(_RP(skipped=True))(inner_skipped)
+    W.inner_skipped_cls = inner_skipped
     if not hasattr(W, 'thread_factory'):
         W.thread_factory = lambda target, args: threading.Thread(target=target, args=args)
 
@@ -553,7 +563,7 @@ def build_class(prog, rec, W, decorated=True):
 
 def forget_class(cls):
     base = getattr(cls, '_verif_base', None)
-    for n in (cls.__name__, cls.__name__ + 'Inner', cls.__name__ + 'Inner2', cls.__name__ + 'Base') + (
+    for n in (cls.__name__, cls.__name__ + 'Inner', cls.__name__ + 'Inner2', cls.__name__ + 'Base', cls.__name__ + 'InnerSkipped') + (
             (base.__name__, base.__name__ + 'Inner', base.__name__ + 'Inner2') if base else ()):
         try:
             delattr(_mod, n)
